@@ -22,6 +22,7 @@ mod compare;
 mod conc;
 mod damage;
 mod hist;
+mod cli;
 mod clock;
 mod icept;
 mod real;
@@ -149,6 +150,10 @@ fn main() {
             eprintln!("usage: cvharness <C01..C18> [--tier quick|thorough] [--seed N] [--out file]");
             std::process::exit(2);
         }
+    }
+    if matches!(prop.as_str(), "C01" | "C02" | "C05" | "C06" | "C07" | "C08" | "C09" | "C10" | "C12" | "C15" | "C16" | "C18") {
+        // the command-line layer, which the in-process runs above bypass
+        cli::run(&prop, &tier, seed, &mut report);
     }
     let text = serde_json::to_string_pretty(&report.to_json()).unwrap();
     match out {
